@@ -114,6 +114,13 @@ func (x *Exec) registerIntrinsics() {
 		top := x.Obj.Cells[x.Off+x.Len-1].(*term.Term)
 		return p.C.AddC(lenChain(p, top, 64), big.NewInt(int64(64*(x.Len-1)))), nil
 	})
+	// (*big.Rat).norm divides numerator and denominator by their gcd (lehmerGCD: loops over the
+	// operand values). The VALUE num/den is unchanged by it, and harnesses compare values by
+	// cross-multiplication, so the reduction is skipped: the fraction stays un-normalised.
+	reg([]string{"(*math/big.Rat).norm"}, func(p *Path, fn *ssa.Function, a []Value) (Value, *Panic) {
+		p.X.noteContract("model:big.Rat.norm(no reduction)")
+		return a[0], nil
+	})
 	reg([]string{"math/bits.Len32"}, func(p *Path, fn *ssa.Function, a []Value) (Value, *Panic) {
 		return lenChain(p, T(a[0]), 32), nil
 	})
